@@ -1,7 +1,7 @@
 (** C11 — Rewrites leave no orphans and references follow.
     Model: Model/RepoV.v (lib/src/repo.rs rebase_descendants_with_options and helpers,
     lib/src/rewrite.rs, lib/src/refs.rs, lib/src/commit_builder.rs). *)
-From Verif Require Import Base.Prelude Base.DagV Model.Merge Model.RepoV Model.C11 Proofs.C10 Proofs.C11 Proofs.C11Loop Proofs.C11View Proofs.C11Follow Proofs.C11Order Proofs.C10Rebase Proofs.C11Unique.
+From Verif Require Import Base.Prelude Base.DagV Model.Merge Model.RepoV Model.C11 Proofs.C10 Proofs.C11 Proofs.C11Loop Proofs.C11View Proofs.C11Follow Proofs.C11Order Proofs.C10Rebase Proofs.C11Unique Proofs.C10Guard.
 
 (** rewritten_ids_with (new_parents is the instance that skips divergent records) never runs out
     of the stated fuel, whatever the mapping (cyclic or not): every key is expanded once. *)
@@ -396,6 +396,20 @@ Proof.
   split; [exact BF|]. split; [exact WF|exact CU].
 Qed.
 
+(** In EVERY state reachable from the empty repository by the modelled operations (including earlier
+    descendant rebases) the structural side conditions of [C11_full] hold by themselves: the state
+    invariant, odd-arity bookmark targets, distinct bookmark and workspace names. What is left are
+    the two boolean conditions on the records, [dom_ok] and [uniq_dom_ok]. *)
+Theorem C11_full_reachable : forall (s0 : state) (o : rebase_opts) (s' : state),
+  reach_all2 s0 -> dom_ok s0 o = true -> uniq_dom_ok s0 o = true ->
+  rebase_descendants s0 o = Ok s' ->
+  J s0 /\ (forall name t, In (name, t) (v_bms (s_v s0)) -> Nat.odd (length t) = true) /\
+  NoDup (map fst (v_bms (s_v s0))) /\ NoDup (map fst (v_wcs (s_v s0))).
+Proof.
+  intros s0 o s' R _ _ _. destruct (reach_all2_inv s0 R) as [Js [Os [Nb Nw]]].
+  split; [assumption|]. split; [exact Os|]. split; now apply nsorted_NoDup.
+Qed.
+
 Example C11_nonvacuous :
   let c := model_case
     [ONew [0] 1 false; ONew [1] 2 false; ONew [2] 3 false; ONew [1] 4 false;
@@ -418,6 +432,7 @@ Print Assumptions C11_cycle_detected.
 Print Assumptions C11_reachable_states_invariant.
 Print Assumptions C11_change_id_unique.
 Print Assumptions C11_full.
+Print Assumptions C11_full_reachable.
 Print Assumptions C11_identity_kept.
 Print Assumptions C11_bookmarks_follow.
 Print Assumptions C11_wc_follows.
